@@ -60,7 +60,7 @@ PROPS = {
     'C05': dict(
         level='proof',
         level_text='Kani proves the codec contract L0-L8 and the complement laws on the real compiled crate (real derive expansion, real transmute) for all 256 byte values x all table rows x 7 codecs x debug-assertions on/off; harnesses are loop-free over their symbolic inputs, so this is a complete enumeration of the finite domain, with counterexamples replayed natively',
-        level_note=KANI_NOTE,
+        level_note=KANI_NOTE + '; the cross-codec conversion law (harness conversions: Dna -> Iupac / text, text -> Dna over all 256 bytes) is part of this check as well as of C19',
         technique='Kani contract harnesses over the full u8 domain (complete), native replay of counterexamples',
         kani=dict(quick=['codec_contract_' + c for c in CODECS] + ['complement_' + c for c in ['dna', 'iupac', 'masked_dna', 'masked_iupac', 'degenerate']] + ['text_bits_identity', 'conversions'],
                   profiles=['debug', 'release']),
@@ -99,7 +99,7 @@ PROPS = {
     'C09': dict(
         level='proof',
         level_text='Verus proves rotated_left/right and pushl/pushr generically in codec, K and storage: results are canonical (value < 2^(K*BITS)) and their symbol lists are the rotated / shifted lists; Kani proves complement, reverse and reverse-complement of 2-bit k-mers at word level for all 2^64 values per K (complete)',
-        level_note=B_NOTE + '; ' + KANI_NOTE,
+        level_note=B_NOTE + '; ' + KANI_NOTE + '; a bounded stand-in C09 (every codec width and K, structured content with all-zero symbols at either end, every rotation class, pushes, DNA comp / revcomp / canonical form) cross-checks the word-level laws on the real crate and supplies concrete inputs when a rewritten loop makes the Kani harnesses time out',
         technique='deductive verification (Verus) for rotate/push; Kani over the full usize domain for word-level comp/rev',
         verus=[dict(name='c09', mode='T', roots=['kmer.rotate', 'kmer.push'])],
         kani=dict(quick=['kmer_dna_ops_k%d' % k for k in (1, 2, 5, 16, 31, 32)] + ['kmer_rev_iupac_k2', 'kmer_rev_iupac_k16', 'kmer_rev_amino_k3', 'kmer_rev_amino_k10', 'kmer_rev_text_k1', 'kmer_rev_text_k8', 'kmer_rev_masked_iupac_k12', 'kmer_rev_degenerate_k7', 'kmer_rev_dna_k9'],
